@@ -18,7 +18,9 @@
 (*            saturated function                                           *)
 (*   Invert   Rs (Rv) at the saturation pressure of r gives r back         *)
 (*   Slope    the derivative delivered by automatic differentiation equals *)
-(*            the centred difference quotient of the function itself       *)
+(*            the left or the right difference quotient of the function    *)
+(*            itself (the interpolants are piecewise linear: at a kink the *)
+(*            derivative is that of the piece in use)                      *)
 (***************************************************************************)
 EXTENDS Integers, Sequences, FiniteSets, TLC, Json
 
